@@ -8,7 +8,7 @@ import re
 import time
 import typing as T
 
-from .core import Module, Repo, AnalysisError, norm, short
+from .core import Module, Repo, AnalysisError, Undecided, norm, short
 
 VERIF = os.path.dirname(os.path.dirname(os.path.abspath(__file__)))
 
@@ -124,7 +124,8 @@ class Check:
         self.explanation = explanation
         self.assumptions = assumptions or []
         self.ctxs: T.List[RuleCtx] = []
-        self.errors: T.List[str] = []
+        self.errors: T.List[str] = []       # every rule that did not reach a verdict (hard errors and undecided)
+        self.undecided: T.List[str] = []    # subset of errors: the rule met an idiom it does not read (sa.core.Undecided)
         self.extra: T.Dict[str, T.Any] = {}
         self.t0 = time.time()
 
@@ -139,7 +140,10 @@ class Check:
             try:
                 r.fn(ctx)
             except AnalysisError as e:
-                self.errors.append(f'{r.rule_id}: {e.__class__.__name__}: {e}')
+                msg = f'{r.rule_id}: {e.__class__.__name__}: {e}'
+                self.errors.append(msg)
+                if isinstance(e, Undecided):
+                    self.undecided.append(msg)
             except RecursionError as e:  # pragma: no cover
                 self.errors.append(f'{r.rule_id}: checker recursion: {e}')
             except Exception as e:  # checker bug: never a verdict about /repo
@@ -211,7 +215,8 @@ class Check:
             'exhaustive': True,
             'rules': rules,
             'files_consulted': dict(sorted(self.repo.consulted.items())),
-            'analysis_errors': self.errors,
+            'analysis_errors': [e for e in self.errors if e not in self.undecided],
+            'undecided_rules': self.undecided,
         }
         cov.update(self.extra)
         if selftest is not None:
